@@ -172,15 +172,21 @@ structure W where
   under   : Under
 deriving Repr, DecidableEq
 
+/-- an informational header (1xx other than 101 Switching Protocols): net/http sends it at once
+and keeps waiting for the response header proper -/
+def isInfo (code : Nat) : Bool := 100 ≤ code && code ≤ 199 && code != 101
+
 def commit (u : Under) (code : Nat) (h : Hdr) : Under :=
-  match u.committed with
-  | some _ => u
-  | none => { u with committed := some (code, h) }
+  if isInfo code then u
+  else match u.committed with
+    | some _ => u
+    | none => { u with committed := some (code, h) }
 
 /-- `ResponseFilterWriter.WriteHeader(code)` -/
 def wWriteHeader (b : Block) (w : W) (code : Nat) : W :=
   if w.decided.isSome then w   -- the decision is taken once; later calls are ignored
-  else if responsePasses b w.live then
+  else if isInfo code then w   -- passed on; the decision waits for the response header proper
+  else if code != 204 && responsePasses b w.live then   -- a 204 has no content to encode
     let h := rewrite w.live
     { live := h, decided := some true, under := commit w.under code h }
   else { w with decided := some false, under := commit w.under code w.live }
@@ -244,6 +250,19 @@ def gzipRun (blocks : List Block) (path ae : Bytes) (i : Inner) : Resp :=
       -- putWriter closes the gzip stream iff the compressing writer was set up
       if w.decided = some true then finish w.under w.live (.layer .gzip inner) none i.ret
       else finish w.under w.live inner (some ilen) i.ret
+
+/-! ### what net/http puts on the wire (trusted, as documented)
+
+No body for a HEAD request and for the statuses 204 and 304 (1xx are informational and never the
+response status here); Content-Length is not sent with 204 and 304, it is kept for HEAD. -/
+
+def bodiless (head : Bool) (status : Nat) : Bool := head || status = 204 || status = 304
+
+def wire (head : Bool) (r : Resp) : Resp :=
+  if bodiless head r.status then
+    { r with body := .raw [], blen := some 0,
+             hdr := if r.status = 204 || r.status = 304 then { r.hdr with cl := none } else r.hdr }
+  else r
 
 /-! ### precompressed siblings (staticfiles) -/
 
